@@ -25,6 +25,11 @@ def root_of(F, body, defs, op, depth=0):
         return ("up", projs[0][1])
     fields = [p for p in projs if p[0] == "f"]
     if fields:
+        # a component of a tuple built just before (`let key = (a, b); let (x, y) = key;`): the component's own root
+        ds_ = defs.of(l)
+        if len(fields) == 1 and len(ds_) == 1 and ds_[0][0] == "stmt" and ds_[0][4]["k"] == "agg" and ds_[0][4]["kind"].get("t") == "tuple" \
+                and fields[0][1] < len(ds_[0][4]["ops"]):
+            return root_of(F, body, defs, ds_[0][4]["ops"][fields[0][1]], depth + 1)
         return ("field", l, tuple(f[2] for f in fields))
     ds = [d for d in defs.of(l)]
     if len(ds) != 1:
@@ -40,6 +45,9 @@ def root_of(F, body, defs, op, depth=0):
     t = d[2]
     if callee(t)[2] in ("clone", "to_owned", "to_string", "deref", "borrow", "as_ref") and t["args"]:
         return root_of(F, body, defs, t["args"][0], depth + 1)
+    if callee(t)[2] in ("index", "get", "get_unchecked") and len(t["args"]) == 2:
+        # an element of a list of identifiers resolved up front: identified by the list and the index variable
+        return ("elem", root_of(F, body, defs, t["args"][0], depth + 1), root_of(F, body, defs, t["args"][1], depth + 1))
     return ("local", l)
 
 
@@ -145,7 +153,33 @@ def run(F):
                    "a binary record stored as (b, a) is silently replaced by the default" % (root, bad[0][1]))
         else:
             r.inst(iid, where, "ok", idiom="lookup with swapped fallback", lookups=len(gets))
-    r.floor("pair-keyed maps", n_maps, 4, exact=True)
+    # anchors: each of the four builders looks its binary records up in a pair-keyed map — in its own body or in a helper it
+    # calls (two builders sharing one `segment_k_ij` helper is one map less, not a lost anchor)
+    ANCHORS = ("parameter::Parameter::binary_matrix_from_records", "parameter::Parameter::from_segments",
+               "GcPcSaftEosParameters as feos_core::parameter::ParameterHetero>::from_segments",
+               "GcPcSaftFunctionalParameters as feos_core::parameter::ParameterHetero>::from_segments")
+    callees = {}
+    for b in F.bodies:
+        src = b.d.get("parent") if b.is_closure() else b.path
+        for bi, t in b.calls():
+            cb = F.callee_body(t)
+            if cb is not None and not cb.is_closure():
+                callees.setdefault(src, set()).add(cb.path)
+    if F.config == "full" or sites:
+        for a in ANCHORS:
+            roots_ = [x.path for x in F.bodies if not x.is_closure() and x.path.endswith(a)]
+            if not roots_:
+                continue          # model not compiled in this configuration
+            ok = any(rt in sites or any(c in sites for c in callees.get(rt, ())) for rt in roots_)
+            iid = "pairmap|anchor|%s" % a.split("::")[-2 if a.endswith("from_segments") and "as " in a else -1]
+            if ok:
+                r.inst("pairmap|anchor|%s" % a, "-", "ok", nontrivial=False)
+            else:
+                r.inst("pairmap|anchor|%s" % a, "-", "violation")
+                r.fail("pairmap|anchor|%s" % a, "-",
+                       "%s no longer looks its binary records up in a map keyed by a pair of identifier strings (neither itself nor through a "
+                       "function it calls): the orientation-independent lookup cannot be confirmed" % a)
+    r.floor("pair-keyed maps", n_maps, 2)
     # the key of a binary-record map is the identifier *the user selected* (`as_string(identifier_option)`): a map keyed by the
     # Identifier records themselves compares by whatever `impl Hash / Eq for Identifier` uses (the CAS number only), whichever
     # kind of identifier was asked for
